@@ -169,13 +169,19 @@ Definition prepare (p : program) : program :=
                                 fn_body := fn_body f; fn_type := am D (fn_type f); fn_explicit := fn_explicit f |}) (p_funs p);
      p_types := D |}.
 
+(* the accepted program returned by the checker model when it accepts (the object the theorems speak
+   about); otherwise (the implementation accepted something the model rejects) the declared types
+   completed independently *)
+Definition completed (p : program) : program :=
+  match typecheck p with Accept q => q | _ => prepare p end.
+
 Inductive indep_verdict : Type :=
 | IndepOk
 | IndepK1 (n : nat)          (* only roots of top-level processes fail: n of them *)
 | IndepViolates (what : string).
 
 Definition indep_program_v (p : program) : indep_verdict :=
-  let p' := prepare p in
+  let p' := completed p in
   let D := p_types p in
   let bad_fun :=
     existsb (fun ff => negb (forallb (fun s => independent_b s && shift_legal_b D s) (fun_sequents p p' (fst ff) (snd ff))))
@@ -194,6 +200,6 @@ Definition indep_program_v (p : program) : indep_verdict :=
   else match k1 with O => IndepOk | S _ => IndepK1 k1 end.
 
 Definition drop_split_program_b (p : program) : bool :=
-  let p' := prepare p in
+  let p' := completed p in
   forallb (fun ff => forallb drop_split_legal_b (fun_sequents p p' (fst ff) (snd ff))) (combine (p_funs p) (p_funs p')) &&
   forallb (fun qq => forallb drop_split_legal_b (proc_sequents p p' (fst qq) (snd qq))) (combine (p_procs p) (p_procs p')).
